@@ -303,6 +303,8 @@ class Interp(Engine):
         return self.binop(node.op, a, b)
 
     def binop(self, op, a, b):
+        if isinstance(a, str) and isinstance(op, ast.Mod):
+            self.percent_arity(a, b)
         if isinstance(a, str) and isinstance(op, ast.Mod) and isinstance(b, tuple) and any(isinstance(x, Sym) for x in b):
             t = self.format_term(a, b)
             return SStr(t if t is not None else self.fresh('fmt', StrSort))
@@ -554,6 +556,27 @@ class Interp(Engine):
             if r is not NotImplemented:
                 return r
         raise OutOfSubset('equality of %r and %r' % (a, b))
+
+    def percent_arity(self, fmt, b):
+        """CPython: '<literal>' % args raises TypeError when the number of conversions and of arguments differ (a tuple is
+        the argument list, a number / string / bytes a single argument).  Decided only where both counts are certain:
+        no mapping keys, no `*` widths, and an operand whose kind is known"""
+        import re
+        specs = re.findall(r'%(?:\(|[#0\- +]*(\*|\d+)?(?:\.(\*|\d+))?[hlL]?([diouxXeEfFgGcrsa%]))', fmt)
+        if '%(' in fmt or any(w == '*' or p == '*' for w, p, _ in specs):
+            return
+        plain = re.sub(r'%[#0\- +]*\d*(?:\.\d+)?[hlL]?[diouxXeEfFgGcrsa%]', '', fmt)
+        if '%' in plain:
+            return                      # an incomplete / unknown conversion: left to the concrete evaluation
+        need = len([c for _, _, c in specs if c != '%'])
+        if isinstance(b, tuple):
+            have = len(b)
+        elif isinstance(b, (SInt, SStr, SBytes, SBool, str, bytes, int, float)) or b is None:
+            have = 1
+        else:
+            return
+        if have != need:
+            raise PyRaise(ExcClass('TypeError'), ('not all arguments converted / not enough arguments for format string',))
 
     def format_term(self, fmt, b):
         """'<literal>' % args as an uninterpreted function of the literal over the arguments (strings as PyStr, ints as
